@@ -17,7 +17,7 @@ ANCHORS = ['phylib.io.model:TemplateModel._find_best_channels', 'phylib.io.model
 RULE = ('Each case = one generated dataset (3/8/12/13/20 channels, 1-3 shanks far apart or interleaved on one grid, jittered or tie-prone '
         'geometry, whitening present/absent, dense or sparse templates with -1 and all-zero columns) loaded '
         'with the real load_model; for every template: get_template under (a model-level default threshold of 0.5 / 0.3 set in params.py for half of the datasets; KS2-style sparse storage with a trivial column table) thresholds {default,0,.3,.5,.7,1} (a third of the datasets hold channels at exactly half the peak amplitude and exactly flat channels) x '
-        'n_closest_channels {4,12} x unwhiten {T,F} x explicit channel lists (permuted subsets, list and '
+        'n_closest_channels {4,12} x unwhiten {True, False, 0, 1, np.False_, np.True_} x explicit channel lists (permuted subsets, list and '
         'array), plus get_template_channels / get_template_waveforms / get_cluster_channels. Each record is '
         'judged for: distinct channels, non-increasing ptp, peak first, column j = reference (un)whitened '
         'template on channel j, amplitude[j] = ptp of column j, channel set = reference set (distance-tie '
@@ -57,6 +57,9 @@ def run_case(case, ctx):
                 dtype_templates=['float32', 'float32', 'float64'][int(rng.integers(0, 3))],
                 dtype_feat=['float32', 'float64'][int(rng.integers(0, 2))])
     opts['sparse_identity'] = bool(sparse and rng.random() < 0.35)
+    if rng.random() < 0.3:
+        opts.update(pos_offset=float(rng.choice([2e4, 5e4])), dtype_pos='float32', ties=False)   # large absolute float32 coordinates
+    opts['probes'] = bool(rng.random() < 0.3)       # a probe table must not influence the channel choice (shank only)
     spec = random_spec(rng, **opts)
     thr_default = [None, None, 0.5, 0.3][int(rng.integers(0, 4))]
     if thr_default is not None:
@@ -93,17 +96,17 @@ def _dense(m, spec, desc, ctx, rng):
         for ncl in (4, 12):
             m.n_closest_channels = ncl
             for thr in (None, 0, .3, .5, .7, 1):
-                for unw in (True, False):
+                for unw in (True, False, 0, np.False_, np.True_, 1)[:2 + 4 * (thr is None and ncl == 4)]:
                     if thr in (.3, 1) and not unw and ncl == 12:
                         continue
                     U = rt.unwhitened(spec, t, unw)
                     thr_eff = (desc['opts'].get('thr_default') or 0) if thr is None else thr
                     best, req_set, allowed = rt.dense_channel_sets(spec, U, thr_eff, ncl)
                     restricted = len(allowed) < nc
-                    req = {'t': t, 'n_closest': ncl, 'thr': thr, 'unwhiten': unw}
+                    req = {'t': t, 'n_closest': ncl, 'thr': thr, 'unwhiten': repr(unw)}
                     base = {'storage': 'dense', 'explicit': False, 'restricted': restricted}
-                    ctx.count(1, key=hkey(tuple(desc['seed']), t, ncl, thr, unw), nontrivial=restricted,
-                              cell=('dense', 'nc%d' % nc, 'ncl%d' % ncl, 'thr%s' % thr, 'unw%d' % unw))
+                    ctx.count(1, key=hkey(tuple(desc['seed']), t, ncl, thr, repr(unw)), nontrivial=restricted,
+                              cell=('dense', 'nc%d' % nc, 'ncl%d' % ncl, 'thr%s' % thr, 'unw_%s' % type(unw).__name__))
                     kw = {'unwhiten': unw}
                     if thr is not None:
                         kw['amplitude_threshold'] = thr
